@@ -26,6 +26,15 @@ Theorem C10_unknown_bucket_not_served : forall c s b k,
 Proof. exact law_missing_bucket. Qed.
 Print Assumptions C10_unknown_bucket_not_served.
 
+(* nor, with auto-bucket on, is a name that create-bucket would refuse: nothing is created *)
+Theorem C10_unknown_invalid_bucket_not_served_auto : forall c s b k,
+  cfg_auto_bucket c = true -> get_bucket s b = None -> validate b = false ->
+  snd (step c s (OGet b k None)) = RErr EInvalidBucketName /\
+  step c s (ODeleteBucket b) = (s, RErr EInvalidBucketName) /\
+  (forall body m, step c s (OPut b k body m) = (s, RErr EInvalidBucketName)).
+Proof. exact law_missing_bucket_auto_invalid. Qed.
+Print Assumptions C10_unknown_invalid_bucket_not_served_auto.
+
 (* a refused operation changes nothing *)
 Theorem C10_error_frame : forall c s o e,
   cfg_auto_bucket c = false -> snd (step c s o) = RErr e -> fst (step c s o) = s.
